@@ -96,7 +96,10 @@ func runLive(t vh.TB, c *LiveCase) (o vh.Outcome) {
 		o.Inconclusive = err.Error()
 		return
 	}
-	poll(100 * time.Millisecond) // the agent's first poll makes the backend live
+	if !r.KeepAlive(backendID, agentEmail) { // the agent's first poll makes the backend live
+		o.Err = fmt.Errorf("the backend's agent polled (6 polls within 8s) but the proxy recorded no last-seen time for it")
+		return
+	}
 	uri := fmt.Sprintf("/app%s?run=%d", c.Path, run)
 	get := func(target string) chan *aerig.Response {
 		ch := make(chan *aerig.Response, 1)
